@@ -374,6 +374,9 @@ pub fn run(cfg: &Cfg, rep: &mut Report) {
                 let mut out: Vec<u8> = Vec::new();
                 built.root().run(&input, &mut dev, &mut c, &mut out)
             };
+            if dev.log.contains(&Ev::PullErr(i16::MIN)) {
+                ctx.violation("C01:parameter-iterator-does-not-terminate", jobj(&[("input", jbytes(&input))]));
+            }
             let inv = dev.invocations().len();
             if inv > 0 {
                 ctx.count("inputs.reaching-a-handler");
